@@ -575,6 +575,19 @@ func genC09(g *Gen) {
 		g.do(Step{Op: "SliceObs", Recv: -1, A: 1})
 		g.do(Step{Op: "Select", Recv: f, Cols: bsList([]string{"F", "I", "B"})})
 		g.do(Step{Op: "SliceObs", Recv: -1, A: 0})
+		// every column in another order, then an existing column replaced: all observers describe the same frame
+		sel := g.do(Step{Op: "Select", Recv: f, Cols: bsList([]string{"P", "X", "E", "S", "B", "F", "I"})})
+		for _, dst := range []string{"I", "S", "P"} {
+			cp := g.do(Step{Op: "Copy", Recv: sel, Dst: toBS(dst), Src: toBS(map[string]string{"I": "P", "S": "X", "P": "I"}[dst])})
+			g.do(Step{Op: "String", Recv: cp})
+			g.do(Step{Op: "ToCSV", Recv: cp})
+			g.do(Step{Op: "ToJSON", Recv: cp})
+			g.do(Step{Op: "Equals", Recv: cp, Other: g.do(Step{Op: "Rebuild", Recv: cp})})
+		}
+		dr := g.do(Step{Op: "Drop", Recv: f, Cols: bsList([]string{"F"})})
+		cp := g.do(Step{Op: "Copy", Recv: dr, Dst: toBS("S"), Src: toBS("X")})
+		g.do(Step{Op: "String", Recv: cp})
+		g.do(Step{Op: "ToJSON", Recv: cp})
 	})
 	colsets := []string{"ABF", "AFTSE", "SREX", "FS", "ATE", "FGX"}
 	sizes := []int{0, 1, 2, 3, 5, 8, 13, 51, 60}
